@@ -4,6 +4,17 @@ import json, os
 ROOT = os.path.dirname(os.path.dirname(os.path.abspath(__file__)))
 
 CLAIMED = {
+ "C16": dict(
+   text="Coq theorems over every input string and every alphabetic-classification function: tokenize terminates (fuel "
+        "length+1 is never exhausted), concatenating the tokens reproduces the input, tokens are non-empty "
+        "(C16_tokenize_lossless); next returns None only at end of input; a token's kind is fixed by its first char; "
+        "well-formed quoted text (doubled or backslash-escaped delimiters) is exactly one Quoted token "
+        "(C16_quoted_is_one_token) and unquote inverts it. Model (coq/Model/Token.v) hand-written from src/token.rs; "
+        "char::is_alphabetic table regenerated from the toolchain each run; tied by byte-exact differential run and an "
+        "in-process exhaustive enumeration of the losslessness oracle on the implementation.",
+   note="Trusted: Coq kernel; extraction and driver; Rust Vec<char>/String semantics modelled as lists of scalar values; "
+        "harness and generators. Print Assumptions: closed under the global context for all six theorems.",
+   technique="Coq proof (induction with fuel bound) + differential correspondence model/implementation", ref="§6 C16"),
  "C17": dict(
    text="Coq theorem C17_unescape_escape: for all backends and all strings (lists of Unicode scalar values, no bound), "
         "unescape_string (escape_string s) = s, proved by induction via the lemma that the chain of nine replace calls is a "
